@@ -37,7 +37,9 @@ Inductive op :=
 | Update (ref : list Z) (r : request)
 | Release (ref : list Z) (r : request)
 | Recharge (supi rg : Z)            (* PUT /recharging/<supi>_<rg> *)
-| Credit (supi rg amount : Z).      (* the operator tops the account up in the database *)
+| Credit (supi rg amount : Z)       (* the operator tops the account up in the database *)
+| Elapse (n : Z).                   (* n records are opened for subscribers outside the history: the
+                                       CHF-wide record counter advances by n, nothing else changes *)
 
 (* ---- state ---- *)
 
@@ -287,7 +289,7 @@ Section Step.
         let u := match found with Some u0 => u0 | None => fresh_ue (r_supi r) end in
         let sid := session_suffix consumer (w_lrsn w) in
         let lrsn' := u64 (w_lrsn w + 1) in
-        let rec0 := mkRec sid (r_supi r) (r_cid r) consumer lrsn' [] true 0 None in
+        let rec0 := mkRec sid (r_supi r) (r_cid r) consumer (wrap64 lrsn') [] true 0 None in   (* int64(counter) in the record *)
         let rec1 := update_cdr rec0 r in
         let idx := length (u_records u) in
         let u' := mkUe (u_supi u) (u_rgs u) (u_reserved u) (u_mode u) (u_cost u) (u_reqnum u) (r_notify r)
@@ -353,7 +355,9 @@ Section Step.
     | Some u =>
       let u' := mkUe (u_supi u) (u_rgs u) (u_reserved u) (aset (u_mode u) rg 1) (u_cost u) (u_reqnum u) (u_notify u)
                      (u_cdr u) (u_records u) (u_sess u) in
-      (mkWorld (w_db w) (put_ue (w_ues w) u') (w_lrsn w) (w_files w) (w_notes w ++ [(u_notify u, supi, rg)]),
+      (* no notification URI registered (-1): the POST has nowhere to go *)
+      (mkWorld (w_db w) (put_ue (w_ues w) u') (w_lrsn w) (w_files w)
+               (if u_notify u <? 0 then w_notes w else w_notes w ++ [(u_notify u, supi, rg)]),
        mkResp 204 [] (-1) [])
     end.
 
@@ -371,6 +375,7 @@ Section Step.
     | Release ref r => do_release w ref r
     | Recharge supi rg => do_recharge w supi rg
     | Credit supi rg a => do_credit w supi rg a
+    | Elapse n => (mkWorld (w_db w) (w_ues w) (u64 (w_lrsn w + Z.max 0 n)) (w_files w) (w_notes w), mkResp 0 [] (-1) [])
     end.
 
   Definition run (w : world) (ops : list op) : world := fold_left (fun w o => fst (step w o)) ops w.
